@@ -69,15 +69,64 @@ def run(chk):
             chk.violation('fingerprints %s differ from the digests of the RFC 4253 blob %s' % (flat, sorted(want.values())),
                           {'cmd': cmd, 'impl': flat, 'reference': sorted(want.values())}, None, True)
         seen.add(flat[0])
+    # OpenSSH certificates (ssh-ed25519-cert-v01@openssh.com) with and without critical options / extensions: the blob of
+    # the specification is parsed by the implementation; key_bytes must be the wire blob and the fingerprints its digests
+    cert_cmds = [cert_cmd(rng) for _ in range(max(12, n // 8))]
+    cert_blobs = common.run_model(cert_cmds)
+    ncert = 0
+    for cmd, b in zip(cert_cmds, cert_blobs):
+        evals += 1
+        blob = bytes.fromhex(b[3:])
+        try:
+            from cryptoparser.ssh.key import SshHostPublicKeyVariant
+            key = SshHostPublicKeyVariant.parse_exact_size(blob)
+            kb = bytes(key.key_bytes)
+            got = sorted(key.fingerprints.values())
+            kh = key.host_key_asdict()['known_hosts']
+        except Exception as e:  # pylint: disable=broad-except
+            if ncert < 3:
+                ncert += 1
+                chk.violation('a certificate encoded per PROTOCOL.certkeys is not accepted or has no fingerprints: %s' % type(e).__name__, {'cmd': cmd, 'blob': blob.hex()}, None, True)
+            continue
+        want = sorted(expected_fingerprints(blob).values())
+        if (kb != blob or got != want or kh != base64.b64encode(blob).decode('ascii')) and ncert < 3:
+            ncert += 1
+            chk.violation('certificate: key_bytes / fingerprints %s differ from the wire blob / its digests %s' % (got, want),
+                          {'cmd': cmd, 'blob': blob.hex(), 'impl': got, 'reference': want}, None, True)
+        seen.add(got[0])
+    chk.coverage['certificates'] = len(cert_cmds)
     chk.coverage['evaluations'] = evals
     chk.coverage['distinct_nontrivial'] = len(seen)
     chk.coverage['traces_validated_against_impl'] = evals
     chk.coverage['rule'] = ('KEXINIT messages over ordered lists of known and unknown algorithm names (empty lists included) encoded by the Coq '
                             'specification; kexinit.hassh / hassh_server compared with the MD5 of the text the Coq reference extracts from the '
                             'wire bytes; RSA and Ed25519 host keys: fingerprints (SHA-256, SHA-1 base64; MD5 colon-hex) and known_hosts value '
-                            'compared with real digests / base64 of the RFC 4253 blob composed by the specification; non-trivial = distinct values')
+                            'compared with real digests / base64 of the RFC 4253 blob composed by the specification; Ed25519 v01 certificates with zero or more '
+                            'critical options and extensions (PROTOCOL.certkeys) encoded by the specification and parsed by the implementation: key_bytes = wire '
+                            'blob, fingerprints and known_hosts = its digests / base64; non-trivial = distinct values')
     chk.sample({'example': kex[0][:160]})
-    chk.assumptions += ['MD5, SHA-1, SHA-256 and base64 are oracles (hashlib / base64 on both sides)', 'DSS / ECDSA host keys and certificates are not in the specification yet']
+    chk.assumptions += ['MD5, SHA-1, SHA-256 and base64 are oracles (hashlib / base64 on both sides)', 'DSS / ECDSA host keys and the RSA / DSS / ECDSA certificate types are not in the specification yet']
+
+
+def cert_cmd(rng):
+    """A certed command: random serial / validity / principals, none, one or several critical options and extensions."""
+    def hx(t):
+        return (t.encode() if isinstance(t, str) else t).hex() or '-'
+
+    def opts(pool, unknown):
+        chosen = [o for o in pool if rng.random() < 0.4]
+        if rng.random() < 0.2:
+            chosen.append(unknown)
+        return '|'.join('%s:%s' % (hx(nm), '_' if d is None else hx(d)) for nm, d in sorted(chosen)) or '-'
+    crit = opts([('force-command', rng.choice(['/bin/true', 'internal-sftp'])), ('source-address', rng.choice(['10.0.0.0/8', '192.0.2.0/24,2001:db8::/32']))],
+                ('verified-user@example.com', 'x'))
+    ext = opts([('permit-X11-forwarding', None), ('permit-agent-forwarding', None), ('permit-port-forwarding', None), ('permit-pty', None),
+                ('permit-user-rc', None)], ('zz-future@example.com', None))
+    principals = ','.join(hx(rng.choice(['root', 'alice', 'host.example.com', 'deploy'])) for _ in range(rng.choice([0, 1, 1, 2]))) or '-'
+    return 'certed %s %s %d %d %s %s %d %d %s %s - %s %s' % (
+        framegen.rnd_bytes(rng, 32).hex(), framegen.rnd_bytes(rng, 32).hex(), rng.choice([0, 1, 2 ** 63, rng.getrandbits(64)]), rng.choice([1, 2]),
+        hx(rng.choice(['user@example.com', 'key-1', ''])), principals, rng.choice([0, 1600000000]), rng.choice([1700000000, 2 ** 64 - 1, 2 ** 32]),
+        crit, ext, framegen.rnd_bytes(rng, 32).hex(), framegen.rnd_bytes(rng, 64).hex())
 
 
 def replay(path):
